@@ -200,6 +200,14 @@ def run_case(case, rep, record=True):
             check_mask(h, rep, f"after {act}")
             if h.diverged:
                 break
+        # the action space is a property of the scenario, not of the history: the same set, with the same
+        # costs / probabilities, after the environment has been used (and for an environment made afterwards)
+        try:
+            check_flat(h, scn, rep)
+        except Failure as f:
+            raise Failure(f.bucket.split(":")[0] + ":" + f.bucket.split(":")[1] + "-after-history", "after the history: " + f.detail)
+        if record:
+            rep.count("flat-set-rechecked-after-history")
         # the mask must not depend on which environment was created last
         other = "small" if len(spec.addrs) != 8 else "tiny"
         import nasim
